@@ -163,10 +163,14 @@ func runC05(c *Ctx) {
 			p := ref.Pick(r, pool)
 			ms := randomMethods(r, s)
 			via := randomVia(r, p)
-			if ok, pv, _ := s.Handle(p, ms, via); !ok {
+			if ok, pv, h := s.Handle(p, ms, via); !ok {
 				if _, isErr := pv.(error); !isErr || isRuntimeError(pv) {
 					c.Violate(fmt.Sprintf("Handle (through %s) panicked with a non-error or runtime fault: %T %v", via, pv, pv), map[string]any{"pattern": short(p), "methods": ms})
 				}
+			} else if h != nil && r.Bool() {
+				// a handler that does what handlers may do with a ResponseWriter, in any order: headers before and after
+				// WriteHeader and Write, several writes, text - none of it may crash the router (HEAD goes through its wrapper)
+				h.Prog = genProgPlain(r)
 			}
 			ops = append(ops, opRec{Op: "Handle", Pattern: p, Methods: ms})
 		case x < 80:
@@ -266,6 +270,9 @@ func runC05(c *Ctx) {
 		shared = grp.New("p", pv)
 		shared.Get("/x", env.NewHnd(mon.KRoute, "/x"))
 		grp.New("v", mux.AndMatcher(hv, mux.OrMatcher(hosts, pv))).Get("/{p}", env.NewHnd(mon.KRoute, "/{p}"))
+		if r.Bool() {
+			grp.New("catch-all-made-by-New", nil).Get("/x", env.NewHnd(mon.KRoute, "/x")) // a nil matcher accepts everything, through New as through Add
+		}
 		grp.Add(nil, s.R)
 		grp2.Add(pv, shared)
 	})
